@@ -158,7 +158,9 @@ def histories(res, tier):
 
 def run_history(w, k, h, inputs, rnd):
     nin = max(h["inputs"]) + 1
-    chosen = rnd.sample(range(len(inputs)), min(nin, len(inputs)))
+    # inputs that share a build directory on disk are only used by the dedicated single-thread history
+    pool = [k for k, x in enumerate(inputs) if "fallback" not in x["name"]]
+    chosen = rnd.sample(pool, min(nin, len(pool)))
     if h.get("special"):
         sp = [k for k, x in enumerate(inputs) if x["name"].startswith("sp-")]
         chosen = sp[:nin] if len(sp) >= nin else chosen
